@@ -42,7 +42,9 @@ pub fn corpus(extras: bool, thorough: bool) -> Vec<G> {
         "x{2,2} ~ \"a\"?", "x{0,2} ~ \"b\"?", "(!\"b\" ~ ANY)+ ~ \"b\"?", "^\"aB\" ~ x?",
     ];
     if extras {
-        forms.extend(["(#t = x) ~ x", "#t = (x ~ x)", "(#t = x)*", "#t = x? ~ \"a\"", "x ~ (#t = \"a\"?)", "(#t = x | #u = \"b\")+", "PUSH_LITERAL(\"a\") ~ x ~ POP", "#t = (x+)", "x ~ #t = (\"b\"*) ~ x", "(#t = x ~ \"b\")?", "#t = x*", "#t = (x ~ \"b\")* ~ x?", "\"b\"? ~ #t = x* ~ #u = x?", "#t = (x | \"b\")*"]);
+        forms.extend(["(#t = x) ~ x", "#t = (x ~ x)", "(#t = x)*", "#t = x? ~ \"a\"", "x ~ (#t = \"a\"?)", "(#t = x | #u = \"b\")+", "PUSH_LITERAL(\"a\") ~ x ~ POP", "#t = (x+)", "x ~ #t = (\"b\"*) ~ x", "(#t = x ~ \"b\")?", "#t = x*", "#t = (x ~ \"b\")* ~ x?", "\"b\"? ~ #t = x* ~ #u = x?", "#t = (x | \"b\")*",
+            // stack-changing matchers under a tag (the optimizer must still see them)
+            "PUSH(x) ~ PUSH(\"b\") ~ (#t = POP*) ~ PEEK_ALL? ~ ANY*", "PUSH(x) ~ PUSH(\"b\") ~ #t = POP? ~ PEEK ~ ANY?", "PUSH(x) ~ PUSH(\"b\") ~ (#t = (POP_ALL | x)) ~ PEEK? ~ ANY*", "PUSH(x) ~ (#t = (DROP ~ \"b\"))? ~ PEEK ~ ANY*", "PUSH(x) ~ PUSH(\"b\") ~ (#t = POP*) ~ (PEEK | \"b\") ~ ANY*", "PUSH(x) ~ PUSH(\"b\") ~ (#t = POP*) ~ DROP ~ ANY*"]);
     }
     let wss: Vec<(&str, &str)> = vec![
         ("", ""),
@@ -116,6 +118,9 @@ pub fn corpus(extras: bool, thorough: bool) -> Vec<G> {
         all.push_str(&format!("b_{b} = {{ {b} }} "));
     }
     push(format!("{all} r = {{ (b_ASCII_DIGIT | b_ASCII_ALPHA_UPPER | b_NEWLINE | b_ASCII_ALPHA)* ~ b_EOI }}"), "builtins");
+    // the same built-ins on look-alikes outside ASCII (letter, digit, fullwidth hex letter, NEL) and on CR / LF
+    extra.push(G { text: format!("{all} r = {{ (b_ASCII_ALPHANUMERIC | b_ASCII_HEX_DIGIT | b_NEWLINE | b_ASCII)* ~ b_EOI }}"), alphabet: "a\u{e9}\u{663}\u{ff21}\r\n\u{85}".into(), class: "builtins" });
+    extra.push(G { text: format!("{all} r = {{ (b_ASCII_ALPHA_LOWER | b_ASCII_OCT_DIGIT | b_ASCII_BIN_DIGIT | b_ASCII_NONZERO_DIGIT)* ~ b_EOI }}"), alphabet: "zZ0189\u{ff10}".into(), class: "builtins" });
     for b in ["ASCII_DIGIT", "ASCII_ALPHA", "NEWLINE", "ASCII", "LETTER", "ASCII_HEX_DIGIT"] {
         for t in types {
             push(format!("{b} = {t}{{ \"a\" ~ \"b\"? }} r = {{ {b}+ ~ \"1\"? }} s = @{{ {b} ~ ANY }}"), "shadowed-builtin");
